@@ -420,17 +420,29 @@ func ruleContiguity(c *Ctx, rule string) {
 			c.ok(rule, key, w.At(e.Send), "emitted with "+wl+" held")
 			continue
 		}
-		// decision under lock: the closure is spawned with the lock held
+		// decision under lock: the closure (or the closure that calls it) is spawned with the lock held
 		decided := false
-		if e.Fn.Parent() != nil {
-			for _, s := range w.callSitesOf(e.Fn) {
-				if _, isGo := s.(*ssa.Go); isGo && lf.relMust[s] != nil {
-					if union(lf.EntryMust[s.Parent()], lf.relMust[s]).has(wl) {
-						decided = true
-					}
-				}
+		var up func(fn *ssa.Function, depth int) bool
+		up = func(fn *ssa.Function, depth int) bool {
+			if fn.Parent() == nil || depth > 3 {
+				return false
 			}
+			sites := w.callSitesOf(fn)
+			if len(sites) == 0 {
+				return false
+			}
+			for _, s := range sites {
+				if _, isGo := s.(*ssa.Go); isGo && lf.relMust[s] != nil && union(lf.EntryMust[s.Parent()], lf.relMust[s]).has(wl) {
+					continue
+				}
+				if s.Parent().Parent() != nil && up(s.Parent(), depth+1) {
+					continue
+				}
+				return false
+			}
+			return true
 		}
+		decided = up(e.Fn, 0)
 		c.check(decided, rule, key, w.At(e.Send), "decided and spawned with "+wl+" held", "emitted without "+wl+" and not spawned from inside its critical section: the frame can land between an envelope and its continuations")
 	}
 	c.floor(rule, n, 4, "header/half-close/close emit sites of stream methods")
@@ -693,7 +705,7 @@ func ruleHeadersOnce(c *Ctx, rule string) {
 		if e.Fn.Parent() == nil {
 			// helper form: every caller tests the flag false; the helper sets it on all paths
 			sites := w.callSitesOf(e.Fn)
-			if len(sites) == 0 {
+			if _, local := c.findOnceFlag(e.Send, a.SS); local || len(sites) == 0 {
 				// emit directly in an API method
 				flag, ok := c.findOnceFlag(e.Send, a.SS)
 				if !ok {
